@@ -83,7 +83,8 @@ pub fn dec_call(
     tr.ev(json!({"ev": "dec", "obj": obj, "in_len": input.len(), "out_len": out.len(), "out_pos": out_pos,
         "out_max": if out_max == usize::MAX { -1i64 } else { out_max as i64 }, "flags": flags,
         "more": flags & TINFL_FLAG_HAS_MORE_INPUT != 0, "wrap": wrap,
-        "status": st_name(st), "consumed": used, "written": w, "data": bytes(&data), "outside_ok": outside_ok}));
+        "status": st_name(st), "consumed": used, "written": w, "data": bytes(&data), "outside_ok": outside_ok,
+        "st": r.verif_state().0}));
     Some((st, used, w))
 }
 
